@@ -49,6 +49,13 @@ def fold_unit(ctx, src):
                              '__CPROVER_loop_invariant(g_i <= size && data_ptr == ((const uint8_t*)data) + g_i && g_n == __CPROVER_loop_entry(g_n) + g_i)\n'
                              '__CPROVER_loop_invariant(hash == g_h%s)\n'
                              '__CPROVER_decreases(size - g_i)' % (w, w)}, nloops=1)
+    # std::string overloads: forward data() / size() (the string is modelled by the two values the code reads)
+    u.function(src, HCC, r'uint32_t fnv1a32\(const std::string& data, uint32_t hash\)',
+               new_header='uint32_t fnv1a32_str(const C10_str* data, uint32_t hash)',
+               rules=[Rule('data.data()', 'data->data', count=1), Rule('data.size()', 'data->size', count=1)])
+    u.function(src, HCC, r'uint64_t fnv1a64\(const string& data, uint64_t hash\)',
+               new_header='uint64_t fnv1a64_str(const C10_str* data, uint64_t hash)',
+               rules=[Rule('data.data()', 'data->data', count=1), Rule('data.size()', 'data->size', count=1)])
     return u
 
 
@@ -75,6 +82,7 @@ def fold_groups(ctx):
         g.first, g.stage1, g.engines = 'cadical', 90, ['cadical', 'cvc5']   # one 32/64-bit multiplier pair: cadical 8-20 s, minisat > 80 s
         G('Hash.%s.default-seed' % f, 'l_%s_default' % f, f, replace=[f], kind='lemma')
         G('Hash.%s.chain' % f, 'l_%s_chain' % f, f, replace=[f], kind='lemma', min_post=3)
+        G('Hash.%s[std::string]' % f, 'h_%s_str' % f, f + '(const std::string&, seed)', enforce=f + '_str', replace=[f], min_post=2)
     return gs
 
 
@@ -126,17 +134,17 @@ def block_prefix(blk, nw, sched):
 
 ALGS = {
     'MD5': dict(alg=1, nw=4, ctor=r'MD5::MD5\(const void\* data, size_t size\)',
-                intro=r'auto process_block = \[this\]\(const void\* block\) -> void', blk='block', pput='pput_u64l', put='put_u32l',
+                intro=r'auto process_block = \[this\]\(const void\* block\) -> void', blk='block',
                 bin=r'string MD5::bin\(\) const', hex=r'string MD5::hex\(\) const',
                 struct=r'struct MD5 \{\s*uint32_t a0, b0, c0, d0;\s*MD5\(',
                 deleg=r'MD5::MD5\(const std::string& data\)\s*:\s*MD5\(data\.data\(\), data\.size\(\)\)\s*\{\s*\}'),
     'SHA1': dict(alg=2, nw=5, ctor=r'SHA1::SHA1\(const void\* data, size_t size\)',
-                 intro=r'auto process_block = \[this\]\(const void\* block\) -> void', blk='block', pput='pput_u64b', put='put_u32b',
+                 intro=r'auto process_block = \[this\]\(const void\* block\) -> void', blk='block',
                  bin=r'std::string SHA1::bin\(\) const', hex=r'std::string SHA1::hex\(\) const',
                  struct=r'struct SHA1 \{\s*uint32_t h\[5\];\s*SHA1\(',
                  deleg=r'SHA1::SHA1\(const std::string& data\)\s*:\s*SHA1\(data\.data\(\), data\.size\(\)\)\s*\{\s*\}'),
     'SHA256': dict(alg=3, nw=8, ctor=r'SHA256::SHA256\(const void\* data, size_t size\)',
-                   intro=r'auto process_block = \[this\]\(const void\* data\)', blk='data', pput='pput_u64b', put='put_u32b',
+                   intro=r'auto process_block = \[this\]\(const void\* data\)', blk='data',
                    bin=r'std::string SHA256::bin\(\) const', hex=r'std::string SHA256::hex\(\) const',
                    struct=r'struct SHA256 \{\s*uint32_t h\[8\];\s*SHA256\(',
                    deleg=r'SHA256::SHA256\(const string& data\)\s*:\s*SHA256\(data\.data\(\), data\.size\(\)\)\s*\{\s*\}'),
@@ -281,8 +289,9 @@ def md_unit(ctx, src, name):
         Rule('process_block(', '%s_process_block(self, ' % name, count=2),
         Rule('StringWriter w;', 'C10_writer w; C10_writer_init(&w);', count=1),
         Rule('w.str().data()', 'C10_writer_data(&w)', count=1),
-        Rule(r'\bw\.size\(\)', 'C10_writer_size(&w)', count=3, regex=True),
-        Rule(r'\bw\.(write|put_u8|extend_to|%s)\(' % A['pput'], r'C10_writer_\1(&w, ', count=4, regex=True),
+        Rule(r'\bw\.size\(\)', 'C10_writer_size(&w)', count='+', regex=True),
+        # either byte order of the length store is accepted here: which one the code uses is for the verifier to judge
+        Rule(r'\bw\.(write|put_u8|extend_to|pput_u64l|pput_u64b)\(', r'C10_writer_\1(&w, ', count=4, regex=True),
         # the state handed to the first block
         Rule('size_t processed_offset;', 'g_iv_ok = C10_STATE_IS_IV(self); size_t processed_offset;', count=1),
     ]
@@ -299,26 +308,28 @@ def md_unit(ctx, src, name):
            '__CPROVER_loop_invariant((g_k >= processed_offset && g_k < processed_offset + z) ==> g_seen == C10_WAT(&w))\n'
            '__CPROVER_decreases(w.size - z)' % GH_ASSIGNS,
     }
-    u.function(src, HCC, A['ctor'], new_header='void %s_ctor(%s* self, const void* data, size_t size)' % (name, name),
-               rules=crules, loops=cloops, nloops=2)
+    ctext = u.function(src, HCC, A['ctor'], new_header='void %s_ctor(%s* self, const void* data, size_t size)' % (name, name),
+                       rules=crules, loops=cloops, nloops=2)
     # --- bin(): out-parameter instead of the returned string
     brules = [Rule('StringWriter w;', 'C10_writer_init(w);', count=1),
-              Rule(r'\bw\.(%s)\(' % A['put'], r'C10_writer_\1(w, ', count=A['nw'], regex=True),
+              Rule(r'\bw\.(put_u32l|put_u32b)\(', r'C10_writer_\1(w, ', count=A['nw'], regex=True),
               Rule('return move(w.str());', 'return;', count=1)]
     if name == 'MD5':
         brules.insert(0, Rule(r'\((a0|b0|c0|d0)\)', r'(self->\1)', count=4, regex=True))     # implicit this
-    u.function(src, HCC, A['bin'], new_header='void %s_bin(const %s* self, C10_writer* w)' % (name, name), rules=brules)
+    btext = u.function(src, HCC, A['bin'], new_header='void %s_bin(const %s* self, C10_writer* w)' % (name, name), rules=brules)
+    # the stub members each function really calls (a contract can only replace a function that occurs in the goto model)
+    called = lambda text: sorted(set('C10_writer_' + m for m in re.findall(r'\bC10_writer_(init|write|put_u8|put_u32l|put_u32b|extend_to|pput_u64l|pput_u64b)\(', text)))
+    u.ctor_stubs, u.bin_stubs = called(ctext), called(btext)
     u.function(src, HCC, A['hex'], new_header='void %s_hex(const %s* self, C10_hexstr* ret)' % (name, name),
                rules=[Rule('return string_printf(', 'C10_string_printf_%d(ret, ' % A['nw'], count=1)])
     return u
 
 
-def md_groups(ctx, name):
+def md_groups(ctx, name, u):
     A = ALGS[name]
     H = 'harness/C10/md.c'
     low = name.lower()
     D = ['C10_ALG=%d' % A['alg'], 'C10_UNIT="x_Hash_%s.c"' % low]
-    writer = ['C10_writer_init', 'C10_writer_write', 'C10_writer_put_u8', 'C10_writer_extend_to', 'C10_writer_' + A['pput']]
     gs = []
     gs.append(Group(name='Hash.%s.process_block' % name, harness=H, entry='h_block', function='%s::%s (process_block lambda)' % (name, name),
                     enforce='%s_process_block' % name, loops=True, kind='loop-contract', defines=D, min_post=3, timeout=300,
@@ -327,12 +338,12 @@ def md_groups(ctx, name):
                                 'message schedule satisfies the standard\'s equations at the ghost indices',
                     replay=Replay(mode=low, **RP)))
     gs.append(Group(name='Hash.%s.constructor' % name, harness=H, entry='h_ctor', function='%s::%s(const void*, size_t)' % (name, name),
-                    enforce='%s_ctor' % name, replace=['%s_process_block' % name] + writer, loops=True, kind='loop-contract',
+                    enforce='%s_ctor' % name, replace=['%s_process_block' % name] + u.ctor_stubs, loops=True, kind='loop-contract',
                     defines=D + ['C10_PB_REPLACED=1'], min_post=6, timeout=300, object_bits=12,
                     clause_note='contracts/C10_md.h: Merkle-Damgard driver and padding tail, size symbolic',
                     replay=Replay(mode=low, **RP)))
     gs.append(Group(name='Hash.%s.bin' % name, harness=H, entry='h_bin', function='%s::bin' % name, enforce='%s_bin' % name,
-                    replace=['C10_writer_init', 'C10_writer_' + A['put']], defines=D, min_post=2,
+                    replace=u.bin_stubs, defines=D, min_post=2,
                     replay=Replay(mode=low + '_bin', **RP)))
     gs.append(Group(name='Hash.%s.hex' % name, harness=H, entry='h_hex', function='%s::hex' % name, enforce='%s_hex' % name,
                     replace=['C10_string_printf_%d' % A['nw']], defines=D, min_post=2,
@@ -351,7 +362,16 @@ def plan(ctx):
         um = md_unit(ctx, src, name)
         um.write()
         ctx.functions_under_contract += um.functions
-        groups += md_groups(ctx, name)
+        groups += md_groups(ctx, name, um)
+    if ctx.tier == 'thorough':
+        # the block functions are the only C10 code that depends on the host byte order (word loads): repeat them under the
+        # big-endian host model (#ifdef PHOSG_LITTLE_ENDIAN byte-swap loop compiled out, le_uint32_t conversion swaps)
+        import copy
+        for g in [g for g in groups if g.name.endswith('.process_block')]:
+            g2 = copy.deepcopy(g)
+            g2.big_endian = True
+            g2.tier = 'thorough'
+            groups.append(g2)
     return groups
 
 
